@@ -234,7 +234,30 @@ class Report(object):
                 self.violation(verdict['what'], dict(verdict.get('replay') or {}, query=q.name,
                                                        args=args, kwargs=kwargs, meta=q.meta))
 
+    def native_witnesses(self):
+        """listed findings that lie outside the families of the solver queries carry a small native program
+        (witness_code, defining witness() -> bool): it runs in a fresh interpreter against the current tree; while the
+        defect is present the finding prints its KNOWN-FINDING line.  Nothing is suppressed by these entries."""
+        import subprocess
+        repo = os.environ.get('VERIF_REPO') or '/repo'
+        for e in json.load(open(KNOWN))['findings']:
+            if e['property'] != self.pid or e.get('status') != 'known' or not e.get('witness_code'):
+                continue
+            code = 'import sys\nsys.path.insert(0, %r)\nimport logging\nlogging.disable(logging.CRITICAL)\n%s\nsys.exit(7 if witness() else 0)\n' % (repo, e['witness_code'])
+            try:
+                p = subprocess.run([sys.executable, '-c', code], stdout=subprocess.PIPE, stderr=subprocess.PIPE, timeout=120)
+                rc = p.returncode
+            except subprocess.TimeoutExpired:
+                rc = -1
+            if rc == 7:
+                self.known(e['what'])
+            elif rc == 0:
+                print('note: listed finding no longer reproduces: %s' % e['what'], flush=True)
+            else:
+                self.harness_error('witness of listed finding failed to run (rc %s): %s' % (rc, e['what'][:80]))
+
     def finish(self, explanation, rule, extra_cov=None):
+        self.native_witnesses()
         qs = [q for q in self.queries]
         main = [q for q in qs if q.kind == 'main']
         cov = {
